@@ -125,7 +125,7 @@ def gen_enumeration(lengths_alphabets):
         max(L, 1), K, ",".join(rows) if rows else "{0}", max(L, 1), ",".join(str(len(a)) for a in lengths_alphabets) if rows else "0")
 
 
-def gen_main(module, struct_name, param_tuples, alphabets, extra_sections=""):
+def gen_main(module, struct_name, param_tuples, alphabets, extra_sections="", observe=True):
     s = module.struct(struct_name)
     ns = cpp_ns(module)
     L, K, table = gen_enumeration(alphabets)
@@ -145,8 +145,13 @@ def gen_main(module, struct_name, param_tuples, alphabets, extra_sections=""):
         lines.append("        o += view.Ok() ? '1' : '0'; o += view.IsComplete() ? '1' : '0'; bool sk = view.SizeIsKnown(); o += sk ? '1' : '0'; o += ':';")
         unit = "Bytes" if s.kind == "struct" else "Bits"
         lines.append("        if (sk) vk::put(o, (unsigned long long)view.SizeIn%s()); else o += '-'; o += '|';" % unit)
-        lines.append("        obs_%s(view, o, std::string()); o += '\\n'; fwrite(o.data(), 1, o.size(), stdout);" % s.name)
-        if extra_sections:
+        if observe:
+            lines.append("        obs_%s(view, o, std::string()); o += '\\n'; fwrite(o.data(), 1, o.size(), stdout);" % s.name)
+        else:
+            lines.append("        obs_%s(view, o, std::string());" % s.name)
+        if callable(extra_sections):
+            lines.append(extra_sections(pi, args).replace("@NS@", ns))
+        elif extra_sections:
             lines.append(extra_sections.replace("@PI@", str(pi)))
         lines.append("      }")
     lines.append("      std::free(p);")
@@ -165,8 +170,9 @@ def _cpp_param(module, ptype, value):
     return "%dLL" % value
 
 
-def driver_source(module, struct_name, param_tuples, alphabets, extra_decls="", extra_sections=""):
-    return "\n".join([PRELUDE, gen_observers(module), extra_decls, gen_main(module, struct_name, param_tuples, alphabets, extra_sections)])
+def driver_source(module, struct_name, param_tuples, alphabets, extra_decls="", extra_sections="", observe=True):
+    return "\n".join([PRELUDE, gen_observers(module), extra_decls,
+                      gen_main(module, struct_name, param_tuples, alphabets, extra_sections, observe)])
 
 
 # ------------------------------------------------------------------ building
